@@ -1,4 +1,51 @@
+import LdarModel.Model.World
 import LdarModel.Driver.Proto
-/- driver stub: replaced by the component's real driver -/
-open LdarModel.Proto
-def main : IO Unit := runDriver (fun (_ : Unit) (_ : List String) => ((), "bad-op")) ()
+/-
+Driver for the daily ledger model (C11).
+  world <N>                                                   -> ok        (start a new world)
+  em <start> <nrd> <delay> <rep> <interm> <aDur> <iDur> <rate*1024> [[day,company,trd(,kind)],...] -> ok
+  rows      -> "new:active:repaired:natRepaired:expired:emis:emisMit:emisNonMit" per day, ';'-joined
+  recrows   -> "active:emis:emisMit:emisNonMit" per day recomputed from the records alone
+-/
+open LdarModel LdarModel.Emission LdarModel.World LdarModel.Proto
+
+structure DS where
+  n : Nat := 0
+  w : List Em := []
+
+def parseEv (s : String) : Option (Nat × Ev) := do
+  match ← intList? s with
+  | [d, c, t] => if d < 0 ∨ c < 0 then none else some (d.toNat, .tag { company := c.toNat, trd := t })
+  | [d, c, t, 0] => if d < 0 ∨ c < 0 then none else some (d.toNat, .tag { company := c.toNat, trd := t })
+  | [d, c, _, 1] => if d < 0 ∨ c < 0 then none else some (d.toNat, .detect c.toNat)
+  | _ => none
+
+def showRow (r : Row) : String :=
+  s!"{r.new}:{r.active}:{r.repaired}:{r.natRepaired}:{r.expired}:{r.emis}:{r.emisMit}:{r.emisNonMit}"
+
+def recRow (w : List Em) (N n : Nat) : String :=
+  let recs := w.map (fun e => recOf e N)
+  let act := (recs.map (fun r => ind (recActiveAfter r n))).sum
+  let em := (recs.map (fun r => ind (recActiveAfter r n) * r.rate)).sum
+  let mit := (recs.map (fun r => if r.repairable then ind (recActiveAfter r n) * r.rate else 0)).sum
+  let non := (recs.map (fun r => if r.repairable then 0 else ind (recActiveAfter r n) * r.rate)).sum
+  s!"{act}:{em}:{mit}:{non}"
+
+def step (s : DS) (toks : List String) : DS × String :=
+  match toks with
+  | ["world", n] => match nat? n with
+    | some n => ({ n := n, w := [] }, "ok")
+    | none => (s, "bad-op")
+  | ["em", st, nrd, dl, rp, im, ad, idr, rate, evs] =>
+    match int? st, int? nrd, int? dl, bool? rp, bool? im, int? ad, int? idr, int? rate, listOf? parseEv evs with
+    | some st, some nrd, some dl, some rp, some im, some ad, some idr, some rate, some evs =>
+      let p : Params := { start := st, nrd := nrd, repairDelay := dl, repairable := rp,
+                          intermittent := im, activeDur := ad, inactiveDur := idr }
+      let ev : Nat → List Ev := fun d => (evs.filter (fun e => e.1 = d)).map (·.2)
+      ({ s with w := s.w ++ [{ p := p, rate := rate, ev := ev }] }, "ok")
+    | _, _, _, _, _, _, _, _, _ => (s, "bad-op")
+  | ["rows"] => (s, ";".intercalate ((List.range s.n).map (fun n => showRow (row s.w n))))
+  | ["recrows"] => (s, ";".intercalate ((List.range s.n).map (fun n => recRow s.w s.n n)))
+  | _ => (s, "bad-op")
+
+def main : IO Unit := runDriver step {}
